@@ -475,6 +475,7 @@ CHECKS["C02"] = dict(
          "velocity offset and flags are hostile are placed in a well-formed WOPN v1/v2 image (banks with msb/lsb up to 255) loaded with opn2_openBankData, or written through "
          "opn2_getBank(create)+opn2_setInstrument; then 4-40 ops select them (CC0/CC32/program) and play: note-ons on all keys incl. >127, velocities incl. >127, bends, RPN0 range, "
          "portamento, 20 controllers with values 0..255, aftertouch, time (1 ms..2.5 s), note-off, panic/reset; 6 emulators, 1-3 chips, 7 volume models, OPN2/OPNA family. "
+         "pbt hostile_header: every magic/version (old magic, version 0/1/2/3/65535) x bank counts from a boundary list (0..65535, incl. pairs whose 16-bit sum wraps) x body absent / short / exact / truncated / sized for a wrapped total. "
          "fuzz: raw bytes (seeded with v1/v2 banks and OPNI files, and from an empty corpus) go, as exact-size heap copies, through WOPN_LoadBankFromMem, WOPN_LoadInstFromMem and "
          "opn2_openBankData, followed by decoded play ops. Oracle: return codes in the documented sets, error text on rejection, an accepted block is at least as long as its declared "
          "content needs, ASan/UBSan/asserts, 30 s CPU watchdog per case (every call returns), register tap: chip index < chips, port < 2, register 0x21..0xB7, value <= 0xFF. "
